@@ -4,3 +4,23 @@ CLAIMS["C13"] = {
     "note": "Lean kernel; axioms propext/Classical.choice/Quot.sound; translator py2lean (ast -> Lean) for the three canonical encoders; the plain encoders are parameters (C12 covers them); verification equivalence (r,s)~(r,n-s) is Props/C13b on the ECDSA model and sampled on real keys.",
     "technique": "Lean 4 proof over source-translated definitions + model/implementation correspondence",
 }
+CLAIMS["C17"] = {
+    "text": "Theorems over Model/Rand.lean for an arbitrary entropy source: randrange_range (1 <= k < n whenever it returns), randrange_deterministic/_replay (a function of the chunks handed out, each iteration requests exactly floor(b/8)+1 fresh bytes), randrange_uniform (for every n >= 2 and every target t the number of chunks mapped to t is exactly 2^(8 len - b): no modulo bias), generate_uses_randrange, sign_nonce_in_range, seed helpers. The model is tied to util.py/keys.py by a correspondence run with scripted entropy streams; the search counts the exact output distribution on small orders against the theorem's constant.",
+    "note": "Lean kernel; standard axioms only; hand-written model + correspondence (scripted entropy, recorded SHA-256 calls); termination of the rejection loops is not provable (probability 1) and not claimed; hash and float-derived bit count are parameters.",
+    "technique": "Lean 4 proof over an executable model + model/implementation correspondence",
+}
+CLAIMS["C04"] = {
+    "text": "Theorems over Model/Rfc6979.lean with HMAC as an abstract function: bits2int is the leftmost-qlen-bits integer for every qlen, bits2octets needs one subtraction, generate_k returns the (retry_gen+1)-th acceptable candidate of the RFC 6979 stream and 1 <= k < n, the retry loop of deterministic signing uses the next candidate. Tie: every hmac call of the real generate_k is recorded and handed to the model as its oracle (a lookup miss is a disagreement); search: independent bit-string RFC 6979 implementation and the RFC appendix vectors.",
+    "note": "Lean kernel; standard axioms; hand-written model + correspondence with recorded HMAC oracle; termination of the candidate loop depends on HMAC and is assumed (the code has the same unbounded loop).",
+    "technique": "Lean 4 proof over an executable model + model/implementation correspondence",
+}
+CLAIMS["C15"] = {
+    "text": "Theorems over Model/NumberTheory.lean built on definitions regenerated from numbertheory.py (Generated/NTTables.lean): inverse_mod_spec for every sign/size of a, Jacobi symbol = Mathlib's jacobiSym, square roots per residue class of p (see Props/C15.lean for which branches are unconditional and which are _partial). Tie: translator for tables/loop pieces + correspondence on exhaustive small moduli and the 34 curve moduli; search: Euler criterion / Legendre product oracle.",
+    "note": "Lean kernel; standard axioms; Mathlib number theory (jacobiSym, quadratic reciprocity, ZMod p field); p prime is a hypothesis of the square-root theorems; pow(a,-1,m) of CPython is modelled by extended Euclid (proved correct) and compared by correspondence.",
+    "technique": "Lean 4 proof over source-translated definitions + model/implementation correspondence",
+}
+CLAIMS["C16"] = {
+    "text": "Theorems: the generated smallprimes table is exactly the ascending primes <= 1229 (kernel-evaluated certificate), is_prime exact on that range and below 2, never rejects a prime of any size, True implies strong probable prime to the bases used; exactness below 2^64 is is_prime_exact_below_2_64_partial under the explicit cited hypothesis psi_12 > 2^64; next_prime, factorization, gcd and lcm specs for any number of arguments in both calling conventions. Tie: translator for the tables and loop pieces + correspondence; search: sieve, published strong pseudoprimes, Carmichael numbers.",
+    "note": "Lean kernel; standard axioms; partial: exactness on (1229, 2^64) rests on the published exhaustive computation (Sorenson-Webster), stated as a hypothesis not an axiom; int(math.log(n,2)) is a parameter supplied by the harness.",
+    "technique": "Lean 4 proof over source-translated definitions + model/implementation correspondence",
+}
